@@ -1,4 +1,5 @@
 import YaqsModel.Lemmas.Params
+import YaqsModel.Model.NoiseNorm
 
 /-!
 # C20 — a run depends only on its own arguments
@@ -189,3 +190,230 @@ example : ¬ Accepts (fresh .weak 0 5 true false) (exArg (some [1/10]) 0) ∧ Ac
   simp [Accepts, single, fresh, exArg, isNoiseFree]
 
 end Yaqs.Params
+
+/-! ## what a run does with the noise model it is given (`NoiseModel.__init__`, `NoiseModel.sample`)
+
+`simulator.run` replaces the caller's noise model by `noise_model.sample()` once, before any trajectory starts, and the
+constructor had completed the process dicts before that.  Both are functions of their argument here (that the real ones do
+not write to the caller's dicts / object is the trace property `template-reuse` / `real-untouched` of the ties); the theorems
+say what may change and what may not. -/
+namespace Yaqs.NoiseNorm
+
+theorem normSites_perm (l : List Nat) : (normSites l).Perm l := by
+  unfold normSites
+  split
+  · unfold sort2
+    split
+    · exact List.Perm.refl _
+    · exact List.Perm.swap _ _ _
+  · exact List.Perm.refl _
+
+/-- one constructor iteration keeps name and strength, and only reorders the two sites -/
+theorem normOne_preserves (known : Name → Bool) (p : ProcIn) (q : ProcOut) (h : normOne known p = .ok q) :
+    q.name = p.name ∧ q.strength = p.strength ∧ q.sites.Perm p.sites := by
+  unfold normOne at h
+  cases hf : fillOf known p with
+  | error e => rw [hf] at h; cases h
+  | ok f =>
+    rw [hf] at h
+    simp only [Except.map, Except.ok.injEq] at h
+    subst h
+    exact ⟨rfl, rfl, normSites_perm _⟩
+
+/-- **C20.5 (`NoiseModel.__init__`)** constructing a noise model never drops, duplicates or reorders a process and never
+    changes a name or a strength (number or distribution); the only change to `sites` is the ascending order of a pair.
+    For every list of process dicts and every content of the noise library. -/
+theorem noise_init_preserves (known : Name → Bool) (ps : List ProcIn) (qs : List ProcOut)
+    (h : normalize known ps = .ok qs) :
+    qs.length = ps.length ∧ qs.map (·.name) = ps.map (·.name) ∧ qs.map (·.strength) = ps.map (·.strength) ∧
+    List.Forall₂ (fun q p => q.sites.Perm p.sites) qs ps := by
+  induction ps generalizing qs with
+  | nil => simp only [normalize, Except.ok.injEq] at h; subst h; exact ⟨rfl, rfl, rfl, List.Forall₂.nil⟩
+  | cons p ps ih =>
+    simp only [normalize, bind, Except.bind] at h
+    cases h1 : normOne known p with
+    | error e => rw [h1] at h; cases h
+    | ok q =>
+      rw [h1] at h
+      simp only at h
+      cases h2 : normalize known ps with
+      | error e => rw [h2] at h; cases h
+      | ok qs' =>
+        rw [h2] at h
+        simp only [pure, Except.pure, Except.ok.injEq] at h
+        subst h
+        obtain ⟨hl, hn, hs, hf⟩ := ih qs' h2
+        obtain ⟨a1, a2, a3⟩ := normOne_preserves known p q h1
+        refine ⟨by simp [hl], by simp [hn, a1], by simp [hs, a2], List.Forall₂.cons a3 hf⟩
+
+/-- **C20.5b (which description the solvers will find)** a process on two non-adjacent sites always ends up with
+    `factors` (the caller's, or the Pauli pair of a `crosstalk_ab` / `longrange_crosstalk_ab` label), every other accepted
+    process with a `matrix`; a `matrix` supplied by the caller for a one-site or adjacent process is never replaced — except
+    under an adjacent `crosstalk_ab` label, which always gets the Pauli pair of its suffix —, and a caller's `factors` entry is
+    never removed -/
+theorem noise_init_form (known : Name → Bool) (p : ProcIn) (f : Fill × Bool) (h : fillOf known p = .ok f) :
+    (∀ a b, p.sites = [a, b] → adjacentPair a b = false → (f.1 = .callerFactors ∨ f.1 = .pauliFactors) ∧ f.2 = true) ∧
+    (∀ a b, p.sites = [a, b] → adjacentPair a b = true →
+      f.1 = .callerMatrix ∨ f.1 = .kronMatrix ∨ f.1 = .libMatrix) ∧
+    (p.sites.length ≤ 1 → f.1 = .callerMatrix ∨ f.1 = .libMatrix) ∧
+    (p.hasMatrix = true → pfxCrosstalk.isPrefixOf p.name = false →
+      (∀ a b, p.sites = [a, b] → adjacentPair a b = true) → f.1 = .callerMatrix) ∧
+    (p.hasFactors = true → f.2 = true) := by
+  unfold fillOf at h
+  split at h
+  · cases h
+  · split at h
+    · rename_i a b hab
+      by_cases hadj : adjacentPair a b = true
+      · simp only [hadj, if_true] at h
+        have key : (f.1 = .callerMatrix ∨ f.1 = .kronMatrix ∨ f.1 = .libMatrix) ∧
+            (p.hasMatrix = true → pfxCrosstalk.isPrefixOf p.name = false → f.1 = .callerMatrix) ∧
+            (p.hasFactors = true → f.2 = true) := by
+          by_cases hc : pfxCrosstalk.isPrefixOf p.name = true
+          · simp only [hc, if_true] at h
+            split at h
+            · simp only [Except.ok.injEq] at h; subst h; simp [hc]
+            · cases h
+          · simp only [hc, Bool.false_eq_true, if_false] at h
+            by_cases hm : p.hasMatrix = true
+            · simp only [hm, if_true, Except.ok.injEq] at h
+              subst h; simp
+            · simp only [hm, Bool.false_eq_true, if_false] at h
+              unfold lookup at h
+              split at h
+              · simp only [Except.map, Except.ok.injEq] at h; subst h; simp [hm]
+              · cases h
+        refine ⟨?_, ?_, ?_, ?_, key.2.2⟩
+        · intro a' b' h1 h2
+          rw [hab] at h1; simp only [List.cons.injEq, and_true] at h1
+          obtain ⟨rfl, rfl⟩ := h1
+          rw [hadj] at h2; cases h2
+        · intro _ _ _ _; exact key.1
+        · intro hl; rw [hab] at hl; simp at hl
+        · intro hm hnc _; exact key.2.1 hm hnc
+      · have hadj' : adjacentPair a b = false := by simpa using hadj
+        simp only [hadj', Bool.false_eq_true, if_false] at h
+        have key : (f.1 = .callerFactors ∨ f.1 = .pauliFactors) ∧ f.2 = true := by
+          split at h
+          · simp only [Except.ok.injEq] at h; subst h; simp
+          · split at h
+            · split at h
+              · simp only [Except.ok.injEq] at h; subst h; simp
+              · cases h
+            · cases h
+        refine ⟨?_, ?_, ?_, ?_, fun _ => key.2⟩
+        · intro _ _ _ _; exact key
+        · intro a' b' h1 h2
+          rw [hab] at h1; simp only [List.cons.injEq, and_true] at h1
+          obtain ⟨rfl, rfl⟩ := h1
+          rw [hadj'] at h2; cases h2
+        · intro hl; rw [hab] at hl; simp at hl
+        · intro _ _ hall
+          have := hall a b hab
+          rw [hadj'] at this; cases this
+    · rename_i hne
+      have key : (f.1 = .callerMatrix ∨ f.1 = .libMatrix) ∧ (p.hasMatrix = true → f.1 = .callerMatrix) ∧
+          (p.hasFactors = true → f.2 = true) := by
+        by_cases hm : p.hasMatrix = true
+        · simp only [hm, if_true, Except.ok.injEq] at h
+          subst h; simp
+        · simp only [hm, Bool.false_eq_true, if_false] at h
+          unfold lookup at h
+          split at h
+          · simp only [Except.map, Except.ok.injEq] at h; subst h; simp [hm]
+          · cases h
+      refine ⟨?_, ?_, fun _ => key.1, fun hm _ _ => key.2.1 hm, key.2.2⟩
+      · intro a b hab; exact absurd hab (hne a b)
+      · intro a b hab; exact absurd hab (hne a b)
+
+/-- `sample` returns one strength per process -/
+theorem sample_length (ss : List Strength) (ds out : List Rat) (h : sample ss ds = .ok out) : out.length = ss.length := by
+  induction ss generalizing ds out with
+  | nil => simp only [sample, Except.ok.injEq] at h; subst h; rfl
+  | cons s ss ih =>
+    simp only [sample, bind, Except.bind] at h
+    cases h1 : sampleOne s (ds.headD 0) with
+    | error e => rw [h1] at h; cases h
+    | ok q =>
+      rw [h1] at h
+      simp only at h
+      cases h2 : sample ss ds.tail with
+      | error e => rw [h2] at h; cases h
+      | ok qs =>
+        rw [h2] at h
+        simp only [pure, Except.pure, Except.ok.injEq] at h
+        subst h
+        simp [ih ds.tail qs h2]
+
+/-- **C20.6 (`NoiseModel.sample` on ordinary models)** when every strength is a number, sampling returns exactly those
+    numbers, whatever the generator does: the model the trajectories see has the caller's rates (so C01's "rates are
+    their strengths" is about the numbers the caller wrote) -/
+theorem sample_identity_on_numbers (qs ds : List Rat) : sample (qs.map Strength.val) ds = .ok qs := by
+  induction qs generalizing ds with
+  | nil => rfl
+  | cons q qs ih => simp [sample, sampleOne, ih, bind, Except.bind, pure, Except.pure]
+
+/-- **C20.6b (sampled strengths are rates)** if the numeric strengths are non-negative and the generator's variates for
+    the log-normal and truncated-normal kinds are non-negative (they are, by the definition of those distributions), every
+    sampled strength is a non-negative number; a normal variate below zero is clamped to zero -/
+theorem sample_nonneg (ss : List Strength) (ds out : List Rat) (h : sample ss ds = .ok out)
+    (hv : ∀ q, Strength.val q ∈ ss → 0 ≤ q) (hd : ∀ d ∈ ds, 0 ≤ d) : ∀ q ∈ out, 0 ≤ q := by
+  induction ss generalizing ds out with
+  | nil => simp only [sample, Except.ok.injEq] at h; subst h; simp
+  | cons s ss ih =>
+    simp only [sample, bind, Except.bind] at h
+    cases h1 : sampleOne s (ds.headD 0) with
+    | error e => rw [h1] at h; cases h
+    | ok q =>
+      rw [h1] at h
+      simp only at h
+      cases h2 : sample ss ds.tail with
+      | error e => rw [h2] at h; cases h
+      | ok qs =>
+        rw [h2] at h
+        simp only [pure, Except.pure, Except.ok.injEq] at h
+        subst h
+        have hhead : 0 ≤ ds.headD 0 := by
+          cases ds with
+          | nil => simp
+          | cons d ds => exact hd d (by simp)
+        have hq : 0 ≤ q := by
+          unfold sampleOne at h1
+          split at h1
+          · simp only [Except.ok.injEq] at h1; subst h1; exact hv _ (by simp)
+          · cases h1
+          · split at h1
+            · simp only [Except.ok.injEq] at h1; subst h1; exact le_max_left _ _
+            · split at h1
+              · simp only [Except.ok.injEq] at h1; subst h1; exact hhead
+              · split at h1
+                · simp only [Except.ok.injEq] at h1; subst h1
+                  split
+                  · exact le_max_left _ _
+                  · exact hhead
+                · cases h1
+        intro x hx
+        rcases List.mem_cons.mp hx with rfl | hx
+        · exact hq
+        · exact ih ds.tail qs h2 (fun q' hq' => hv q' (by simp [hq'])) (fun d hd' => hd d (List.mem_of_mem_tail hd')) x hx
+
+/-- a distribution dict without a `distribution` key, or of an unknown kind, is refused — never sampled as something else -/
+theorem sample_refuses (mean std draw : Rat) (kind : String)
+    (hk : kind ≠ "normal" ∧ kind ≠ "lognormal" ∧ kind ≠ "truncated_normal") :
+    sampleOne (.dist none mean std) draw = .error .value ∧ sampleOne (.dist (some kind) mean std) draw = .error .value := by
+  refine ⟨rfl, ?_⟩
+  unfold sampleOne
+  simp only [hk.1, hk.2.1, hk.2.2, if_false]
+
+example : normalize (fun n => n == "lowering".toList)
+    [⟨['l','o','w','e','r','i','n','g'], [2], .val (1/10), false, false⟩,
+     ⟨pfxCrosstalk ++ ['x','y'], [3, 1], .dist (some "normal") (1/10) (1/100), false, false⟩,
+     ⟨pfxCrosstalk ++ ['z','z'], [1, 0], .val 0, false, false⟩] =
+    .ok [⟨['l','o','w','e','r','i','n','g'], [2], .val (1/10), .libMatrix, false⟩,
+         ⟨pfxCrosstalk ++ ['x','y'], [1, 3], .dist (some "normal") (1/10) (1/100), .pauliFactors, true⟩,
+         ⟨pfxCrosstalk ++ ['z','z'], [0, 1], .val 0, .kronMatrix, false⟩] := by decide +kernel
+
+example : sample [.val (1/10), .dist (some "normal") (1/10) (1/100), .dist (some "truncated_normal") (1/5) 0] [0, -1/50, 7] =
+    .ok [1/10, 0, 1/5] := by decide +kernel
+
+end Yaqs.NoiseNorm
